@@ -151,6 +151,7 @@ func Main() {
 	r.Floor("genuine_added_after_bogus_for_same_slot", 1000)
 	r.Floor("complete_sets_read_back", 1000)
 	r.Floor("valid_blocks", 200)
+	r.Floor("tampered_blocks_with_more_than_128_txs", 1)
 	r.Floor("valid_blocks_with_evidence", 30)
 	r.Floor("valid_blocks_txs", 200)
 	r.Floor("last_commit_sigs_absent", 10)
